@@ -1,2 +1,284 @@
-exception Model_none
-let dispatch (e : string) : string -> string = failwith ("unknown engine " ^ e)
+(* model-side engines: same case-line syntax and output syntax as harness/src/engines.rs and session.rs *)
+open Model
+open Util
+
+let ctl_str = function
+  | Backspace -> "BS" | Down -> "DN" | Enter -> "EN" | Back -> "BK" | Forward -> "FW" | Tab -> "TB" | Up -> "UP"
+let ev_str = function Ctl c -> ctl_str c | Chr s -> "c:" ^ hex s
+
+let dec line =
+  let (_, evs) = runa ig0 (unhex line) in
+  join " " (List.map ev_str evs)
+
+let u8 line =
+  let (_, cs) = run acc0 (unhex line) in
+  join " " (List.map hex cs)
+
+let parse_unit (t : string) : unit_ =
+  let rest k = String.sub t k (String.length t - k) in
+  if t = "bs" then UBS else if t = "tab" then UTab
+  else if t = "tcr" then UTerm TCR else if t = "tlf" then UTerm TLF
+  else if t = "tcrlf" then UTerm TCRLF else if t = "tlfcr" then UTerm TLFCR
+  else if String.length t > 3 && String.sub t 0 3 = "csi" then
+    let (ps, f) = split_once ':' (rest 3) in
+    UCsi (unhex ps, List.hd (unhex f))
+  else if String.length t > 3 && String.sub t 0 3 = "ign" then UIgn (List.hd (unhex (rest 3)))
+  else if t.[0] = 'c' then UChar (unhex (rest 1))
+  else failwith ("unit " ^ t)
+
+let decu line =
+  let us = List.map parse_unit (split_on ' ' line) in
+  if not (List.for_all wf_unitb us && greedyb N0 us) then "REJECT"
+  else hex (List.concat_map bytes_of us) ^ " " ^ join " " (List.map ev_str (List.concat_map events_of us))
+
+let utils line =
+  match split_on ' ' line with
+  | ["cnt"; h] -> string_of_int (int_of_nat (char_count (unhex h)))
+  | ["idx"; h; k] -> (match char_byte_index (unhex h) (nat_of_int (int_of_string k)) with
+                      | Some i -> string_of_int (int_of_nat i) | None -> "N")
+  | ["pop"; h] -> (match some (char_pop_front (unhex h)) with
+                   | Some (c, rest) -> Printf.sprintf "%d %s" (int_of_n c) (hex rest) | None -> "N")
+  | ["pfx"; a; b] -> string_of_int (int_of_nat (common_prefix_len (unhex a) (unhex b)))
+  | ["enc"; cp] -> hex (encode_utf8 (n_of_int (int_of_string cp)))
+  | ["trim"; h] -> hex (trim_start (unhex h))
+  | _ -> failwith "utils op"
+
+let ed line =
+  let (cap, ops) = split_once ' ' line in
+  let e = ref (ed_new (nat_of_int (int_of_string cap))) in
+  let out = List.map (fun op ->
+    let (name, arg) = split_once ':' op in
+    let ret = match name with
+      | "i" -> let t = unhex arg in
+               let (e', ok) = some (ed_insert !e t) in e := e'; if ok then "S" ^ hex t else "N"
+      | "ml" -> let (e', b) = ed_move_left !e in e := e'; if b then "T" else "F"
+      | "mr" -> let (e', b) = ed_move_right !e in e := e'; if b then "T" else "F"
+      | "rm" -> e := some (ed_remove !e); "-"
+      | "cl" -> e := ed_clear !e; "-"
+      | "len" -> string_of_int (int_of_nat (ed_len !e))
+      | "tr" -> hex (ed_text_from !e (nat_of_int (int_of_string arg)))
+      | "ac" -> let cands = List.map unhex (split_on ',' arg) in
+                let req = ref "N" in
+                e := some (ed_autocompletion !e (fun name ac -> req := hex name; List.fold_left ac_merge ac cands));
+                !req
+      | _ -> failwith "ed op" in
+    Printf.sprintf "%s:%s:%d" ret (hex !e.text) (int_of_nat !e.cursor))
+    (List.filter (fun s -> s <> "") (split_on ';' ops)) in
+  join " " out
+
+let toks_str ts = join "," (List.map hex ts)
+
+let tok line =
+  let ((_, raw), empty) = some (tokens_new (unhex line)) in
+  Printf.sprintf "e=%d raw=%s toks=%s" (if empty then 1 else 0) (hex raw) (toks_str (tokens_iter raw empty))
+
+let arg_str = function
+  | DoubleDash -> "DD" | LongOption n -> "L:" ^ hex n | ShortOption c -> "S:" ^ string_of_int (int_of_n c) | Value v -> "V:" ^ hex v
+let args_str ts = join "," (List.map arg_str (some (args_of ts)))
+
+let cmd line =
+  let ((_, raw), empty) = some (tokens_new (unhex line)) in
+  match from_tokens (tokens_iter raw empty) with
+  | None -> "none"
+  | Some (name, args) ->
+    let items = some (args_of args) in
+    let n_items = List.length items in
+    let rests = List.init (n_items + 1) (fun k ->
+      let it = ref (ai_new args) in
+      for _ = 1 to k do
+        match some (ai_next !it) with Some (_, it') -> it := it' | None -> ()
+      done;
+      args_str (ai_into_args !it)) in
+    let help = match some (help_request name args) with
+      | None -> "none" | Some HAll -> "all"
+      | Some (HCommand (n, a)) -> Printf.sprintf "cmd(%s;%s)" (hex n) (args_str a) in
+    Printf.sprintf "name=%s args=%s help=%s rests=%s" (hex name) (args_str args) help (String.concat "|" rests)
+
+let hist line =
+  let (cap, ops) = split_once ' ' line in
+  let h = ref (hist_new (nat_of_int (int_of_string cap))) in
+  let out = List.map (fun op ->
+    let (name, arg) = split_once ':' op in
+    let ret = match name with
+      | "p" -> h := some (hist_push !h (unhex arg)); "-"
+      | "o" -> let (h', el) = some (hist_older !h) in h := h'; (match el with Some s -> "S" ^ hex s | None -> "N")
+      | "n" -> let (h', el) = some (hist_newer !h) in h := h'; (match el with Some s -> "S" ^ hex s | None -> "N")
+      | _ -> failwith "hist op" in
+    Printf.sprintf "%s:%s:%s" ret (hex !h.hbuf) (match !h.hcur with Some c -> string_of_int (int_of_nat c) | None -> "N"))
+    (List.filter (fun s -> s <> "") (split_on ';' ops)) in
+  join " " out
+
+(* ---- writer ops / sessions *)
+let all_feats = { f_hist = true; f_ac = true; f_help = true }
+let feats = ref all_feats
+
+let hops_of_wop (kind : char) (arg : string) : hop list =
+  match kind with
+  | 's' | 'u' | 'f' -> [HWrite (unhex arg)]
+  | 'l' -> [HWriteln (unhex arg)]
+  | 't' -> title_hops (unhex arg)
+  | 'e' -> (match String.split_on_char '.' arg with
+            | [a; b; c] -> list_element_hops (unhex a) (unhex b) (nat_of_int (int_of_string c))
+            | _ -> failwith "e op")
+  | _ -> failwith "writer op"
+
+let out_bytes (ops : sinkop list) : n list =
+  List.concat_map (function SW b -> b | _ -> []) ops
+
+let sink_render (ops : sinkop list) : string =
+  join "," (List.map (function SW b -> "W" ^ hex b | SF -> "F" | SXW -> "XW" | SXF -> "XF") ops)
+
+let res_str = function Ok _ -> "ok" | Err -> "err" | Panic -> raise Model_none
+
+let wr line =
+  let ops = List.filter (fun s -> s <> "" && s <> "-") (split_on ';' line) in
+  let hops = List.concat_map (fun op -> let (k, a) = split_once ':' op in hops_of_wop k.[0] a) ops in
+  let okf _ = true in
+  let s0 = cli_init (nat_of_int 8) (nat_of_int 8) (unhex "503e20") in
+  let (_, s1) = api_build okf s0 in
+  let s1 = set_sk { calls = s1.sk.calls; out = [] } s1 in
+  let (r, s2) = api_write okf hops s1 in
+  Printf.sprintf "%s %s" (res_str r) (hex (out_bytes s2.sk.out))
+
+let prompt_index (p : n list) : int =
+  let rec go i = function [] -> 99 | x :: r -> if x = p then i else go (i + 1) r in go 0 pROMPTS
+
+let session (cs : cmdset) (handler : nat -> n list -> n list list -> hop list) cap hcap pi ops : string =
+  let fail_at = ref (-1) and perm = ref false in
+  let okf (n : nat) = let n = int_of_nat n in
+    not (!fail_at >= 0 && (n = !fail_at || (!perm && n > !fail_at))) in
+  let st = ref (cli_init (nat_of_int cap) (nat_of_int hcap) (prompt_of (nat_of_int pi))) in
+  let out = ref [] in
+  let snapshot r =
+    let s = !st in
+    let calls = join "+" (List.map (fun (n, a) -> Printf.sprintf "%s(%s)" (hex n) (args_str a)) s.hcalls) in
+    let histf = if !feats.f_hist then
+        Printf.sprintf "%s/%s" (hex s.hist.hbuf) (match s.hist.hcur with Some c -> string_of_int (int_of_nat c) | None -> "N")
+      else "-" in
+    let line = Printf.sprintf "%s|%s|%d|%s|%d|%s|%s" (res_str r) (hex s.ed.text) (int_of_nat s.ed.cursor) histf
+        (prompt_index s.prompt) calls (sink_render s.sk.out) in
+    st := { s with sk = { calls = s.sk.calls; out = [] }; hcalls = [] };
+    out := line :: !out in
+  (* hcalls is cleared per step, so give the handler the running count separately *)
+  let ncalls = ref 0 in
+  let handler' _ name args = let k = !ncalls in incr ncalls; handler (nat_of_int k) name args in
+  let apply m = let (r, s') = m !st in st := s'; snapshot r in
+  apply (api_build okf);
+  List.iter (fun op ->
+    let (name, arg) = split_once ':' op in
+    match name with
+    | "b" -> List.iter (fun b -> apply (api_process_byte okf !feats cs handler' b)) (unhex arg)
+    | "w" -> let hops = List.concat_map (fun w -> hops_of_wop w.[0] (String.sub w 1 (String.length w - 1)))
+                 (List.filter (fun s -> s <> "") (split_on ',' arg)) in
+             apply (api_write okf hops)
+    | "p" -> apply (api_set_prompt okf (prompt_of (nat_of_int (int_of_string arg))))
+    | "x" -> if arg = "off" then (fail_at := -1; perm := false)
+             else let (k, mode) = split_once ':' arg in
+               fail_at := int_of_nat !st.sk.calls + int_of_string k; perm := (mode = "perm")
+    | _ -> failwith "ses op")
+    (List.filter (fun s -> s <> "") (split_on ';' ops));
+  String.concat " ; " (List.rev !out)
+
+let ses line =
+  match String.split_on_char ' ' line with
+  | cap :: hcap :: pi :: cmdset :: rest ->
+    let ops = String.concat " " rest in
+    (match cmdset with
+     | "raw" -> session raw_cmdset handler_raw (int_of_string cap) (int_of_string hcap) (int_of_string pi) ops
+     | _ -> "nodecl")
+  | _ -> failwith "ses line"
+
+let dispatch (e : string) : string -> string =
+  match e with
+  | "dec" -> dec | "u8" -> u8 | "decu" -> decu | "utils" -> utils | "ed" -> ed | "tok" -> tok | "cmd" -> cmd
+  | "hist" -> hist | "wr" -> wr | "ses" -> ses
+  | _ -> failwith ("unknown engine " ^ e)
+
+(* ================= spec-side engines (direct oracles) ================= *)
+let strs_of arg = if arg = "-" then [] else List.map unhex (split_on ',' arg)
+
+(* quote: list of strings -> the quoted rendering, and what the spec tokeniser makes of it *)
+let quote line =
+  let l = strs_of line in
+  let r = render_quoted l in
+  Printf.sprintf "%s %s" (hex r) (toks_str (tokens_fun r))
+
+let tokspec line = toks_str (tokens_fun (unhex line))
+
+let wrspec line =
+  let ops = List.filter (fun s -> s <> "" && s <> "-") (split_on ';' line) in
+  let hops = List.concat_map (fun op -> let (k, a) = split_once ':' op in hops_of_wop k.[0] a) ops in
+  Printf.sprintf "ok %s" (hex (frame_write hops (unhex "503e20") [] O))
+
+(* termchk: an implementation session output line; checks the C06 view after every successful step *)
+let termchk line =
+  let steps = Str.split (Str.regexp_string " ; ") line in
+  let t = ref vterm0 in
+  let bad = ref "" in
+  List.iteri (fun k st ->
+    if !bad = "" then
+    match String.split_on_char '|' st with
+    | [r; text; cur; _; pidx; _; sink] ->
+      let ops = if sink = "-" then [] else String.split_on_char ',' sink in
+      let bytes = List.concat_map (fun o -> if String.length o > 0 && o.[0] = 'W' then unhex (String.sub o 1 (String.length o - 1)) else []) ops in
+      t := feed !t (term_lex bytes);
+      if r = "ok" then begin
+        let p = prompt_of (nat_of_int (int_of_string pidx)) in
+        if not (view_ok !t p (unhex text) (nat_of_int (int_of_string cur))) then
+          bad := Printf.sprintf "fail step=%d row=%s col=%d want=%s cursor=%s" k
+              (hex (List.concat (visible !t.row))) (int_of_nat !t.col) (hex (p @ unhex text)) cur
+      end
+    | _ -> bad := "malformed step " ^ string_of_int k) steps;
+  if !bad = "" then "ok" else !bad
+
+let edspec line =
+  let (cap, ops) = split_once ' ' line in
+  let cap = nat_of_int (int_of_string cap) in
+  let i = ref ideal0 in
+  let out = List.map (fun op ->
+    let (name, arg) = split_once ':' op in
+    let ret = match name with
+      | "i" -> let t = unhex arg in
+               let (i', ok) = ideal_step cap !i (IInsert (chars_of t)) in i := i'; if ok then "S" ^ hex t else "N"
+      | "ml" -> let (i', b) = ideal_step cap !i ILeft in i := i'; if b then "T" else "F"
+      | "mr" -> let (i', b) = ideal_step cap !i IRight in i := i'; if b then "T" else "F"
+      | "rm" -> let (i', _) = ideal_step cap !i IRemove in i := i'; "-"
+      | "cl" -> let (i', _) = ideal_step cap !i IClear in i := i'; "-"
+      | _ -> failwith "edspec op" in
+    Printf.sprintf "%s:%s:%d" ret (hex (ibytes !i)) (int_of_nat !i.icur))
+    (List.filter (fun s -> s <> "") (split_on ';' ops)) in
+  join " " out
+
+let histspec line =
+  let (cap, ops) = split_once ' ' line in
+  let cap = nat_of_int (int_of_string cap) in
+  let h = ref hspec0 in
+  let out = List.map (fun op ->
+    let (name, arg) = split_once ':' op in
+    let ret = match name with
+      | "p" -> h := hs_push cap !h (unhex arg); "-"
+      | "o" -> let (h', el) = hs_older !h in h := h'; (match el with Some s -> "S" ^ hex s | None -> "N")
+      | "n" -> let (h', el) = hs_newer !h in h := h'; (match el with Some s -> "S" ^ hex s | None -> "N")
+      | _ -> failwith "histspec op" in
+    Printf.sprintf "%s:%s:%s" ret (toks_str !h.ents) (match !h.pos with Some c -> string_of_int (int_of_nat c) | None -> "N"))
+    (List.filter (fun s -> s <> "") (split_on ';' ops)) in
+  join " " out
+
+let argspec line =
+  match tokens_fun (unhex line) with
+  | [] -> "none"
+  | name :: args -> Printf.sprintf "name=%s args=%s" (hex name) (join "," (List.map arg_str (classify_all false args)))
+
+(* acspec: <cap> <names|-> <text> <cursor> *)
+let acspec line =
+  match String.split_on_char ' ' line with
+  | [cap; names; text; cur] ->
+    let (t, c) = complete_spec (strs_of names @ [unhex "68656c70"]) (nat_of_int (int_of_string cap)) (unhex text) (nat_of_int (int_of_string cur)) in
+    Printf.sprintf "%s:%d" (hex t) (int_of_nat c)
+  | _ -> failwith "acspec"
+
+let dispatch (e : string) : string -> string =
+  match e with
+  | "quote" -> quote | "tokspec" -> tokspec | "wrspec" -> wrspec | "termchk" -> termchk | "edspec" -> edspec
+  | "histspec" -> histspec | "argspec" -> argspec | "acspec" -> acspec
+  | _ -> dispatch e
